@@ -26,7 +26,7 @@ from . import gmx as G
 from . import compose as C
 
 PHASE_ORDER = ["initialize", "before_bar", "trigger", "on_bar", "after_bar", "notify"]
-PHASES = ["before_bar", "trigger", "on_bar", "on_bar", "after_bar"]
+PHASES = ["before_bar", "trigger", "on_bar", "on_bar", "after_bar", "after_bar", "notify"]
 DECIMALS = dict(C.DECIMALS)
 DECIMALS.update(G.GLP_CATALOGUE)
 DECIMALS.update({"ETH": 18, "BTC": 8})
